@@ -47,6 +47,8 @@ var vTextFams = []vTextFam{
 	29: {"[1, '''a", "", "'] a"},                 // ... inside a long string inside a list
 	30: {"\"ab", "", "\\\"nxu0"},                  // ... inside a short string or one of its escapes
 	31: {"1 /", "", "*/ a\n"},                      // ... inside a comment
+	32: {"{{\"a\\x", "\"}} 7", "0189aAfF"},         // hex escapes in clobs: one byte each, also above 0x7F
+	33: {"\"a\\x", "\" 7", "0189aAfF"},             // hex escapes in strings: one code point each
 }
 
 func vInAlpha(c byte, alpha string) bool {
